@@ -15,9 +15,19 @@ def pairwiseB {α} (r : α → α → Bool) : List α → Bool
   | [] => true
   | a :: l => l.all (r a) && pairwiseB r l
 
+/-- terms whose `d` may carry a sign: `d:e` -/
+def pSignedTerm (s : String) : Option (Int × Nat) :=
+  match s.splitOn ":" with
+  | [a, b] => do let a ← a.toInt?; let b ← b.toNat?; pure (a, b)
+  | _ => none
+
 def handleC09 (f : List String) : Res :=
   match f with
   | [ms, xs, Ks, Ts, terms, dict, unch] =>
+    -- a term with d ≤ 0 is a violation of "d > 0" as it stands (the model only produces naturals)
+    if (match pList pSignedTerm terms with | some l => l.any (fun t => t.1 ≤ 0) | none => false) then
+      specIf "d-positive" false { corr := false, detail := s!"terms:impl={terms}", tag := s!"m={ms},long=0" }
+    else
     match pMethod ms, pNat xs, pNat Ks, pNat Ts, pPairs terms, pInts dict with
     | some m, some x, some K, some T, some tl, some dl =>
       let impl : List Term := tl.map fun p => ⟨p.1, p.2⟩
